@@ -13,6 +13,7 @@ type kcTriple struct {
 	M string `json:"m"`
 	H string `json:"h"`
 	U string `json:"u"`
+	X string `json:"x"`
 }
 
 type kcCase struct {
@@ -44,7 +45,11 @@ func KeyCodec(w *world.World, raws []json.RawMessage) ([]interface{}, error) {
 		// every case lives in its own name space: a prefix segment in front of the URI
 		pre := fmt.Sprintf("/kc%d", i)
 		do := func(t kcTriple) map[string]interface{} {
-			r := w.DoCase("", "kc", t.M, t.H, pre+strings.Replace(t.U, "LONG", long, 1), nil, nil)
+			var hdr http.Header
+			if t.X != "" {
+				hdr = http.Header{"X-Forwarded-Host": []string{t.X}}
+			}
+			r := w.DoCase("", "kc", t.M, t.H, pre+strings.Replace(t.U, "LONG", long, 1), hdr, nil)
 			raw := r.Header.Get("X-Echo-Raw")
 			if len(raw) >= len(pre) {
 				raw = raw[len(pre):]
